@@ -6,6 +6,9 @@
 (*   inter  - several live iterators on one thread, next() called in the   *)
 (*            order sched; results[k] is what call k returned (<<>> = None)*)
 (*   thread - an evaluator drained on one of many concurrent threads       *)
+(*   bigthread - the same for runs of ~10^5 showdowns, compared through an *)
+(*            order-sensitive digest of everything observable (cards,      *)
+(*            probability bits, power indexes, winner flags)               *)
 (* Allowed iff every iterator, looked at by itself, produced exactly its   *)
 (* solo sequence (then None for ever), whatever the others were doing.     *)
 (***************************************************************************)
@@ -26,6 +29,7 @@ Allowed(e) ==
   CASE e.op = "solo" -> e.outcome = "ok"
     [] e.op = "inter" -> InterOK(e)
     [] e.op = "thread" -> ThreadOK(e)
+    [] e.op = "bigthread" -> e.digest = Rec[e.id].digest /\ e.digest[3] > 0      \* long concurrent run: same digest as alone
     [] e.op = "sendsync" -> TRUE
     [] OTHER -> FALSE
 
